@@ -29,6 +29,7 @@ type fieldAccess struct {
 // outerField walks a FieldAddr chain up to the outermost shared struct field: &c.stats.TotalTasks -> RetryClient.stats
 func outerField(fa *ssa.FieldAddr) (string, ssa.Value, bool) {
 	cur := fa
+	path := ""
 	for {
 		owner := typeName(cur.X.Type())
 		_, fld := fieldOf(cur)
@@ -36,8 +37,12 @@ func outerField(fa *ssa.FieldAddr) (string, ssa.Value, bool) {
 			return "", nil, false
 		}
 		if sharedStructs[owner] {
-			return owner + "." + fld.Name(), cur.X, true
+			return owner + "." + fld.Name() + path, cur.X, true
 		}
+		// a field of a struct held by value inside a shared struct: named by its full path, so that parts with different
+		// protection (c.tasks.ch / c.tasks.stopped) are judged separately; accesses to the whole inner struct are judged
+		// together with each of its parts (see the grouping in checkC10)
+		path = "." + fld.Name() + path
 		inner, ok := cur.X.(*ssa.FieldAddr)
 		if !ok {
 			return "", nil, false
@@ -240,6 +245,21 @@ func checkC10(r *Run) {
 			continue
 		}
 		byField[a.Field] = append(byField[a.Field], a)
+	}
+	// an access to a whole inner struct (stats := c.stats) touches every part of it
+	{
+		own := map[string][]fieldAccess{}
+		for k, v := range byField {
+			own[k] = v
+		}
+		for k := range own {
+			for anc, as := range own {
+				if anc != k && strings.HasPrefix(k, anc+".") {
+					byField[k] = append(byField[k], as...)
+					byField[anc] = append(byField[anc], own[k]...)
+				}
+			}
+		}
 	}
 	var fields []string
 	for f := range byField {
